@@ -10,6 +10,7 @@
 //   * cap: reward <= sum_q min(risked_q, risked_p),
 //   * exact: maximal runs of adjacent layers with the same winner set are paid floor(chips/n)
 //     each plus chips mod n single chips to the first winners in seat order.
+use robopoker::cards::hand::Hand;
 use robopoker::cards::kicks::Kickers;
 use robopoker::cards::rank::Rank;
 use robopoker::cards::ranking::Ranking;
@@ -28,8 +29,8 @@ struct Seat {
     strength: u8,
 }
 
-/// strength values order-isomorphic to 0..N (checked at start-up)
-fn strength_table() -> Vec<Strength> {
+/// a mixed bag of strengths across the categories (strictly increasing)
+fn mixed_pool() -> Vec<Strength> {
     let k = |m: u16| Kickers::from(m);
     vec![
         Strength::from((Ranking::HighCard(Rank::Seven), k(0b0000_0000_1111))),
@@ -44,8 +45,113 @@ fn strength_table() -> Vec<Strength> {
         Strength::from((Ranking::Straight(Rank::Ace), k(0))),
         Strength::from((Ranking::FullHouse(Rank::Two, Rank::Ace), k(0))),
         Strength::from((Ranking::FourOAK(Rank::Two), k(1 << 12))),
-        Strength::from((Ranking::StraightFlush(Rank::Ace), k(0))),
+        Strength::from((Ranking::StraightFlush(Rank::King), k(0))),
     ]
+}
+
+/// the largest and the smallest value of the `Strength` type below the `Ranking::MAX` sentinel
+fn max_strength() -> Strength {
+    Strength::from((Ranking::StraightFlush(Rank::Ace), Kickers::from(0u16)))
+}
+fn min_strength() -> Strength {
+    Strength::from((Ranking::HighCard(Rank::Two), Kickers::from(0u16)))
+}
+
+const RANKS: [Rank; 13] = [
+    Rank::Two, Rank::Three, Rank::Four, Rank::Five, Rank::Six, Rank::Seven, Rank::Eight,
+    Rank::Nine, Rank::Ten, Rank::Jack, Rank::Queen, Rank::King, Rank::Ace,
+];
+
+/// how `k` abstract levels are picked out of a sorted pool
+#[derive(Clone, Copy)]
+enum Pick {
+    Spread, // evenly spaced, always including the bottom and the top of the pool (k = 1: the top)
+    First,  // the k smallest (adjacent pool entries stay adjacent)
+    Last,   // the k largest
+}
+
+const MAXLEVELS: usize = 13;
+const EMBEDDINGS: [&str; 5] = ["extremes", "kickers-only", "second-rank-twopair", "second-rank-fullhouse", "evaluator-7-cards"];
+
+/// order-isomorphic embeddings of the abstract levels 0..k into real `Strength` values:
+/// `tabs[e][k]` = the k strictly increasing strengths used for a ledger with k levels.
+/// The model only ever sees the naturals.
+fn embeddings() -> Vec<Vec<Vec<Strength>>> {
+    // (a) bottom = minimal strength, top = maximal strength (ace-high straight flush)
+    let mut extremes = vec![min_strength()];
+    extremes.extend(mixed_pool());
+    extremes.push(max_strength());
+    // (b) same category and rank, only the kickers differ: all 4-kicker masks below the ace
+    let mut kick: Vec<Strength> = (0u16..1 << 12)
+        .filter(|m| m.count_ones() == 4)
+        .map(|m| Strength::from((Ranking::HighCard(Rank::Ace), Kickers::from(m))))
+        .collect();
+    kick.sort();
+    // (c) only the second rank field differs: TwoPair(A, x) and FullHouse(A, x), x = 2..K
+    let mut second: Vec<Strength> = vec![];
+    for r in &RANKS[..12] {
+        second.push(Strength::from((Ranking::TwoPair(Rank::Ace, *r), Kickers::from(0u16))));
+    }
+    for r in &RANKS[..12] {
+        second.push(Strength::from((Ranking::FullHouse(Rank::Ace, *r), Kickers::from(0u16))));
+    }
+    // (d) what the real evaluator makes of actual 7-card hands, royal flush on top
+    let hands = [
+        "2c 4d 7h 9s Jc Qd Kh", // king high
+        "2c 4d 7h 9s Jc Qd Ah", // ace high
+        "2c 2d 7h 9s Jc Qd Ah", // pair of deuces
+        "Ac Ad 7h 9s Jc Qd 2h", // pair of aces
+        "Ac Ad 7h 7s Jc Qd 2h", // aces and sevens
+        "Ac Ad Kh Ks Jc Qd 2h", // aces and kings
+        "7c 7d 7h 9s Jc Qd 2h", // trip sevens
+        "Ac 2d 3h 4s 5c Qd 9h", // wheel
+        "Ac Kd Qh Js Tc 2d 3h", // broadway
+        "2c 5c 7c 9c Jc Qd Kh", // flush
+        "7c 7d 7h 9s 9c Qd 2h", // sevens full
+        "Kc Kd Kh Ks Ac 2d 3h", // quad kings
+        "Ac Ad Ah As Kc 2d 3h", // quad aces
+        "5h 6h 7h 8h 9h Ac Ad", // nine-high straight flush
+        "Ts Js Qs Ks As 2d 3h", // royal flush
+    ];
+    let mut eval: Vec<Strength> = hands.iter().map(|h| Strength::from(Hand::try_from(*h).expect("hand"))).collect();
+    let royal = *eval.last().unwrap();
+    eval.sort();
+    eval.dedup();
+    assert!(eval.len() >= MAXLEVELS, "evaluator pool too small");
+    assert!(royal == max_strength() && *eval.last().unwrap() == royal, "royal flush is not the maximal strength");
+    let pools: Vec<(Vec<Strength>, Pick)> = vec![
+        (extremes, Pick::Spread),
+        (kick, Pick::Spread),
+        (second.clone(), Pick::First),
+        (second, Pick::Last),
+        (eval, Pick::Spread),
+    ];
+    let sentinel = Strength::from((Ranking::MAX, Kickers::default()));
+    let mut tabs = vec![];
+    for (pool, pick) in pools {
+        for w in pool.windows(2) {
+            assert!(w[0] < w[1], "strength pool not strictly increasing");
+        }
+        assert!(pool.iter().all(|x| *x < sentinel), "sentinel not above the pool");
+        assert!(pool.len() >= MAXLEVELS);
+        let n = pool.len();
+        let mut by_k = vec![];
+        for k in 0..=MAXLEVELS {
+            let t: Vec<Strength> = (0..k)
+                .map(|i| match pick {
+                    Pick::Spread => if k == 1 { pool[n - 1] } else { pool[i * (n - 1) / (k - 1)] },
+                    Pick::First => pool[i],
+                    Pick::Last => pool[n - k + i],
+                })
+                .collect();
+            for w in t.windows(2) {
+                assert!(w[0] < w[1], "embedding not strictly increasing");
+            }
+            by_k.push(t);
+        }
+        tabs.push(by_k);
+    }
+    tabs
 }
 
 fn status_of(s: u8) -> State {
@@ -229,17 +335,28 @@ fn oracle(l: &[Seat], got: &[i16]) -> Vec<(&'static str, String, String)> {
 }
 
 struct Ctx {
-    tab: Vec<Strength>,
+    tabs: Vec<Vec<Vec<Strength>>>,
+    cycle: usize,
     run: Run,
 }
 
 impl Ctx {
     /// one ledger: correspondence line always; oracle only under the property's hypotheses
-    fn case(&mut self, l: &[Seat], tag: &str) {
+    /// `emb`: which embedding of the abstract levels into real strengths (None: next in the cycle)
+    fn case(&mut self, l: &[Seat], tag: &str, emb: Option<usize>) {
         let op = op_of(l);
         let ok = valid(l);
         self.run.evaluations += 1;
-        let res = real(&self.tab, l);
+        let e = match emb {
+            Some(e) => e,
+            None => {
+                self.cycle = (self.cycle + 1) % EMBEDDINGS.len();
+                self.cycle
+            }
+        };
+        let levels = l.iter().map(|p| p.strength as usize + 1).max().unwrap_or(0);
+        self.run.count(&format!("embedding/{}", EMBEDDINGS[e]));
+        let res = real(&self.tabs[e][levels], l);
         match &res {
             None => self.run.line(&op, "panic"),
             Some(r) => {
@@ -303,7 +420,7 @@ fn enumerate(ctx: &mut Ctx, n: usize, maxc: i16, levels: u8, invalid_every: u64)
                 continue;
             }
         }
-        ctx.case(&l, "exhaustive");
+        ctx.case(&l, "exhaustive", None);
     }
 }
 
@@ -359,12 +476,7 @@ fn main() {
     let mut rng = Rng::new(a.seed);
     quiet_panics();
     watchdog();
-    let tab = strength_table();
-    let sentinel = Strength::from((Ranking::MAX, Kickers::default()));
-    for w in tab.windows(2) {
-        assert!(w[0] < w[1], "strength table not strictly increasing");
-    }
-    assert!(tab.iter().all(|s| *s < sentinel), "sentinel not above the table");
+    let tabs = embeddings();
     // the oracle must reject wrong payouts of a ledger with an odd chip, three layers and folded money
     {
         let l = [
@@ -384,12 +496,12 @@ fn main() {
         assert_eq!(classes(&[9, 1, 1, 0, 3]), vec!["merged-layer-payout-differs"]);
         assert!(classes(&[0, 1, 1, 0, 12]).contains(&"paid-above-cap"));
     }
-    let mut ctx = Ctx { tab, run: Run::new(&a.out) };
+    let mut ctx = Ctx { tabs, cycle: 0, run: Run::new(&a.out) };
     ctx.run.notes.push("oracle self-test: 6 wrong payouts of a 5-seat ledger rejected with the expected classes, the textbook payout accepted".into());
     let nrandom: u64 = if a.thorough() { 4_000_000 } else { 200_000 };
     ctx.run.exhaustive = true;
     ctx.run.rule = format!(
-        "exhaustive: every ledger of 1..=4 seats x commitments 0..=4 x {{betting, all-in, folded}} x 3 strength levels that satisfies the property's hypotheses (a contesting seat exists, contesting non-all-in seats hold the largest contesting commitment M, folded seats <= M){}; plus {nrandom} random ledgers of 2..=9 seats, commitments up to 3/9/100/3600, 1..=6 strength levels, valid by construction; ledgers outside the hypotheses (every {}th of the enumeration, 1/8 of the random ones, some with negative commitments) go to the model-correspondence stream only; non-trivial = at least two pot layers or a tie with an odd chip; distinct by the whole ledger",
+        "exhaustive: every ledger of 1..=4 seats x commitments 0..=4 x {{betting, all-in, folded}} x 3 strength levels that satisfies the property's hypotheses (a contesting seat exists, contesting non-all-in seats hold the largest contesting commitment M, folded seats <= M){}; plus {nrandom} random ledgers of 2..=9 seats, commitments up to 3/9/100/3600, 1..=6 strength levels, valid by construction; ledgers outside the hypotheses (every {}th of the enumeration, 1/8 of the random ones, some with negative commitments) go to the model-correspondence stream only; the abstract strength levels of each ledger are embedded order-isomorphically into real Strength values by one of 5 embeddings (bottom/top = minimal/maximal Strength incl. the ace-high straight flush; kickers-only differences; second-rank-only differences in TwoPair / FullHouse; strengths computed by the real evaluator from 7-card hands with the royal flush on top), cycled through the enumeration and drawn from the seeded Rng for random ledgers, the model sees only the naturals; non-trivial = at least two pot layers or a tie with an odd chip; distinct by the whole ledger",
         if a.thorough() { "; and of 5 seats x commitments 0..=3 x 2 strength levels" } else { "" },
         if a.thorough() { 3 } else { 7 },
     );
@@ -402,11 +514,13 @@ fn main() {
     }
     for _ in 0..nrandom {
         let l = random_ledger(&mut rng, true);
-        ctx.case(&l, "random");
+        let e = rng.below(EMBEDDINGS.len() as u64) as usize;
+        ctx.case(&l, "random", Some(e));
     }
     for _ in 0..nrandom / 8 {
         let l = random_ledger(&mut rng, false);
-        ctx.case(&l, "random");
+        let e = rng.below(EMBEDDINGS.len() as u64) as usize;
+        ctx.case(&l, "random", Some(e));
     }
     // the nine pinned example ledgers' shape is covered above; add the extremes of the chip type
     let big = [
@@ -415,7 +529,21 @@ fn main() {
         vec![Seat { risked: 32767, status: 0, strength: 0 }, Seat { risked: 0, status: 2, strength: 1 }],
     ];
     for l in &big {
-        ctx.case(l, "extreme");
+        for e in 0..EMBEDDINGS.len() {
+            ctx.case(l, "extreme", Some(e));
+        }
+    }
+    // the top of the strength order: an ace-high straight flush against quads, and alone
+    let top = [
+        vec![Seat { risked: 100, status: 0, strength: 1 }, Seat { risked: 100, status: 0, strength: 0 }],
+        vec![Seat { risked: 100, status: 0, strength: 0 }, Seat { risked: 100, status: 0, strength: 1 }],
+        vec![Seat { risked: 7, status: 1, strength: 0 }],
+        vec![Seat { risked: 7, status: 1, strength: 2 }, Seat { risked: 9, status: 0, strength: 2 }, Seat { risked: 9, status: 0, strength: 1 }, Seat { risked: 4, status: 2, strength: 0 }],
+    ];
+    for l in &top {
+        for e in 0..EMBEDDINGS.len() {
+            ctx.case(l, "top-strength", Some(e));
+        }
     }
     DONE.store(true, Ordering::SeqCst);
     ctx.run.finish();
